@@ -23,6 +23,7 @@ Definition RT_Gp32 := 5. Definition RT_Gp64 := 6. Definition RT_Vec128 := 11. De
 Definition OPT_Lock := 8192. Definition OPT_XAcquire := 65536. Definition OPT_XRelease := 131072.
 Definition OPT_Rep := 16384. Definition OPT_Repne := 32768.
 Definition OPT_ZMask := 8388608. Definition OPT_ER := 262144. Definition OPT_SAE := 524288. Definition OPT_Rex := 1073741824.
+Definition OPT_Evex := 4096.
 (* InstDB::InstFlags *)
 Definition IF_Lock := 65536. Definition IF_XAcquire := 131072. Definition IF_XRelease := 262144.
 Definition IF_Rep := 16384. Definition IF_RepIgnored := 32768. Definition IF_Evex := 8388608.
@@ -81,7 +82,7 @@ Definition model_consts : list N :=
    E_InvalidLockPrefix; E_InvalidXAcquirePrefix; E_InvalidXReleasePrefix; E_InvalidRepPrefix; E_InvalidExtraReg; E_InvalidKMaskUse;
    E_InvalidKZeroUse; E_InvalidBroadcast; E_InvalidEROrSAE; E_InvalidAddress; E_InvalidAddress64Bit; E_InvalidAddress64BitZeroExtension;
    E_InvalidSegment; E_InvalidImmediate; E_InvalidOperandSize; E_InvalidUseOfGpbHi; E_InvalidUseOfGpq;
-   MODE_X86; MODE_X64; RT_Gp64].
+   MODE_X86; MODE_X64; RT_Gp64; OPT_Evex].
 
 (* ------------------------------------------------------------------ tables *)
 Record isig := { is_op_count : N; is_mode : N; is_implicit : N; is_idx : list N }.
@@ -92,7 +93,9 @@ Record vtables := {
   vt_isig  : list isig;                 (* _inst_signature_table *)
   vt_osig  : list (N * N);              (* _op_signature_table: flags (56 bit), reg_mask *)
   vt_rt_opflags : list N;               (* op_flag_from_reg_type_table *)
-  vt_vd86 : vdata; vt_vd64 : vdata
+  vt_vd86 : vdata; vt_vd64 : vdata;
+  vt_strict_bcst : bool                 (* does validate() refuse {1toN} on instructions without broadcast flags? (probed by the dumper;
+                                           fixes/C13-validate-undeclared-broadcast.patch) *)
 }.
 
 Definition test (a b : N) : bool := negb (N.land a b =? 0).
@@ -151,8 +154,9 @@ Definition xlat_operand (T : vtables) (x64 virt_ok : bool) (avx : N) (op : opera
   | OMem size bt bid it iid off seg bcst home =>
     if 6 <? seg then XErr E_InvalidSegment else
     (* broadcast *)
-    let bc_err := negb (bcst =? 0) && negb (size =? 0) &&
-                  ((test avx AF_B32 && negb (size =? 4)) || (test avx AF_B64 && negb (size =? 8))) in
+    let bc_err := negb (bcst =? 0) &&
+                  ((vt_strict_bcst T && negb (test avx (N.lor AF_B16 (N.lor AF_B32 AF_B64)))) ||
+                   (negb (size =? 0) && ((test avx AF_B32 && negb (size =? 4)) || (test avx AF_B64 && negb (size =? 8))))) in
     if bc_err then XErr E_InvalidBroadcast else
     let msize := if bcst =? 0 then size
                  else N.land (N.shiftl (if size =? 0 then (if test avx AF_B64 then 8 else if test avx AF_B32 then 4 else 2) else size) bcst) 4294967295 in
@@ -341,12 +345,16 @@ Definition validate (T : vtables) (zq x64 virt_ok : bool) (inst : vinst) (ops : 
       if scnt =? 0 then E_Ok
       else match_sigs T zq (if x64 then MODE_X64 else MODE_X86) (xs_sigs st) (inst_sigs T sidx scnt) false in
     if negb (sig_err =? E_Ok) then sig_err else
+    (* the {evex} option can only select an encoding the instruction has *)
+    let evex_err : N := if test options OPT_Evex && negb (test iflags IF_Evex) then E_InvalidInstruction else E_Ok in
+    if negb (evex_err =? E_Ok) then evex_err else
     (* AVX-512 options *)
     let has_mem := match xs_mem st with Some _ => true | None => false end in
     let avx_err : N :=
       if negb (test options kAvx512) then E_Ok else
       if test iflags IF_Evex then
         if test options OPT_ZMask && negb (test avx AF_Z) then E_InvalidKZeroUse else
+        if test options OPT_ZMask && op0_is_mem then E_InvalidKZeroUse else       (* {z} with a memory destination *)
         if test options (N.lor OPT_SAE OPT_ER) then
           if has_mem then E_InvalidEROrSAE else
           if test options OPT_ER && negb (test avx AF_ER) then E_InvalidEROrSAE else
@@ -372,6 +380,10 @@ Definition validate (T : vtables) (zq x64 virt_ok : bool) (inst : vinst) (ops : 
     else E_InvalidExtraReg
   end.
 
+(* a vendored instantiation (mode, instruction, operands) is accepted by the repaired validator *)
+Definition accepts_with (T : vtables) (c : bool * vinst * list operand) : bool :=
+  let '(x64, i, ops) := c in validate T false x64 false i ops =? E_Ok.
+
 (* "validate then encode": the emit hook of x86::Assembler::_emit under kValidateAssembler. The encoder is a parameter
    (it is not modelled here); emitter state S is threaded only through the encoder. *)
 Definition emit_validated {S B : Type} (T : vtables) (zq x64 : bool) (encode : S -> vinst -> list operand -> S * (N * B)) (fail : N -> B)
@@ -391,3 +403,76 @@ Definition vtables_wf (T : vtables) : bool :=
   forallb (fun s => (is_op_count s <=? 6) && (is_implicit s <=? is_op_count s) && (N.of_nat (length (is_idx s)) =? 6) &&
                     forallb (fun i => i <? N.of_nat (length (vt_osig T))) (is_idx s)) (vt_isig T) &&
   forallb (fun o => (fst o <=? MASK56) && (snd o <=? 255)) (vt_osig T).
+
+(* ------------------------------------------------------------------ ISA database rows at the operand-kind level
+   a database row, expanded to one kind per operand: instruction id, the modes it exists in (InstDB::Mode bits), and per operand
+   (flags an admitting signature operand must contain [incl. kFlagImplicit for implicit operands], fixed register bit or 0, implicit?) *)
+Record dbrow := { dr_inst : N; dr_mode : N; dr_ops : list (N * N * bool) }.
+
+Definition op_admitted (dbop : N * N * bool) (ref : N * N) : bool :=
+  let '(need, fixed, impl) := dbop in
+  (N.land (fst ref) need =? need) && Bool.eqb (test (fst ref) OF_FlagImplicit) impl &&
+  Bool.eqb (test (fst ref) OF_FlagMemBase) (test need OF_FlagMemBase) &&
+  (if test need OF_RegMask then
+     (if fixed =? 0 then snd ref =? 0 else (snd ref =? 0) || test (snd ref) fixed)
+   else true).
+
+Fixpoint ops_admitted (dbops : list (N * N * bool)) (refs : list (N * N)) : bool :=
+  match dbops, refs with
+  | [], [] => true
+  | o :: os, r :: rs => op_admitted o r && ops_admitted os rs
+  | _, _ => false
+  end.
+
+(* some signature record of the instruction covers all modes of the row, has the same operand count and admits every operand *)
+Definition sig_admits (T : vtables) (row : dbrow) (s : isig) : bool :=
+  (N.land (is_mode s) (dr_mode row) =? dr_mode row) && ops_admitted (dr_ops row) (sig_refs T s).
+
+Definition row_present (T : vtables) (row : dbrow) : bool :=
+  let '(_, _, sidx, scnt) := nth (N.to_nat (dr_inst row)) (vt_inst T) (0, 0, 0, 0) in
+  (dr_inst row <? vt_count T) && existsb (sig_admits T row) (inst_sigs T sidx scnt).
+
+(* a signature record is consistent with its operand list: _op_count entries, _implicit_op_count of them flagged implicit *)
+Definition sig_wf (T : vtables) (s : isig) : bool :=
+  (N.of_nat (length (sig_refs T s)) =? is_op_count s) &&
+  (N.of_nat (length (filter (fun r => test (fst r) OF_FlagImplicit) (sig_refs T s))) =? is_implicit s).
+
+(* a translated operand (flags, 8-bit register mask) is of the kind a database operand names: it shares an operand-kind bit with it, it is
+   a register only if the database operand is one, it is a base-only address where the database demands one, and it is the fixed register
+   where the database fixes one *)
+Definition op_fits (dbop : N * N * bool) (op : N * N) : bool :=
+  let '(need, fixed, _) := dbop in
+  test (N.land (fst op) need) OF_OpMask &&
+  (test need OF_RegMask || negb (test (fst op) OF_RegMask)) &&
+  (negb (test need OF_FlagMemBase) || test (fst op) OF_FlagMemBase) &&
+  ((fixed =? 0) || (snd op =? fixed)).
+
+Definition explicit_ops (dbops : list (N * N * bool)) : list (N * N * bool) := filter (fun d => negb (snd d)) dbops.
+
+Fixpoint fits_all (dbops : list (N * N * bool)) (ops : list (N * N)) : bool :=
+  match dbops, ops with
+  | [], [] => true
+  | d :: ds, o :: os => op_fits d o && fits_all ds os
+  | _, _ => false
+  end.
+
+Fixpoint nseq_v (start : N) (len : nat) : list N :=
+  match len with O => [] | S k => start :: nseq_v (N.succ start) k end.
+
+(* ------------------------------------------------------------------ converse direction (weak form): a signature record of an instruction has a database ORIGIN -
+   some database row of that instruction, sharing a mode with the record, is admitted by it operand by operand *)
+Definition sig_origin (T : vtables) (rows : list dbrow) (iid : N) (s : isig) : bool :=
+  let refs := sig_refs T s in
+  existsb (fun row => (dr_inst row =? iid) && negb (N.land (is_mode s) (dr_mode row) =? 0) && ops_admitted (dr_ops row) refs) rows.
+
+Fixpoint forallbi {A : Type} (f : N -> A -> bool) (k : N) (l : list A) : bool :=
+  match l with [] => true | x :: r => f k x && forallbi f (N.succ k) r end.
+
+Definition pair_in (p : N * N) (l : list (N * N)) : bool := existsb (fun q => (fst q =? fst p) && (snd q =? snd p)) l.
+
+Definition records_have_origin (T : vtables) (rows : list dbrow) (exceptions : list (N * N)) : bool :=
+  forallb (fun iid =>
+    let '(_, _, sidx, scnt) := nth (N.to_nat iid) (vt_inst T) (0, 0, 0, 0) in
+    let rows_i := filter (fun row => dr_inst row =? iid) rows in          (* evaluated once per instruction *)
+    forallbi (fun k s => pair_in (iid, k) exceptions || sig_origin T rows_i iid s) 0 (inst_sigs T sidx scnt))
+  (nseq_v 1 (N.to_nat (vt_count T) - 1)).
